@@ -18,8 +18,9 @@ Oracle (real objects only):
        scale              k*feed gives k*flows
        top-label          mass fraction of the named chemical in 'L' >= in 'l'
        lle-raises         the call returns (no exception out of a cached or solver path)
-  (two results that are both a single liquid — an empty phase, or two 'phases' of one composition, the trivial
-   solution of an optimiser — are compared on their total only)
+  (two results that are both ONE liquid at the solvers' own resolution — a phase is empty, or the split lowers the
+   Gibbs energy of mixing by less than the optimisers' f_tol 1e-6 per mole of feed: the trivial solution, a dust
+   phase — are compared on their total only)
   SLE  only the solute row moves; solute conserved; 0 <= dissolved <= present; mole fraction of
        the solute in the liquid <= the solubility used (given or computed); pure solute all liquid
        above Tm / all solid below; the call returns.
@@ -32,7 +33,8 @@ PID = 'C15'
 LEAN_MODULES = ['ThermoVerif.Props.C15']
 RULE = ('LLE: 2–5 chemicals out of a 9-chemical package, always water plus ≥1 partially miscible partner '
         '(octane, hexane, butanol, octanol, ethyl acetate, toluene), T 285–355 K, all three solver methods, every '
-        'choice of top chemical (present, absent, none), histories of 0–4 earlier calls at the same / nearby (±5e-4 K) / '
+        'choice of top chemical (present, absent, none), feed totals of ordinary size (10-100 kmol/hr) and tiny '
+        '(1e-6..1e-4 kmol/hr, 30 % of the cases; scale replays up to 1e6 / down to 1e-6), histories of 0–4 earlier calls at the same / nearby (±5e-4 K) / '
         'lower / higher temperature, with composition changes (large, within tolerance, other chemical set), '
         'scalings 1e-3..1e3, update=False calls and cache resets between calls; SLE: solutes with Tm and Hfus (tetradecanol, naphthalene, '
         'phenol, benzoic acid, glucose) with 0–3 solvents, T 250–450 K, given and computed solubilities, Dortmund '
@@ -230,6 +232,11 @@ def apply_lle_op(s, t, record=False, force_nocache=False):
     return s
 
 
+def sig6(a):
+    """six significant digits (flows of tiny streams stay readable)"""
+    return [float(f'{float(x):.6g}') for x in a]
+
+
 def mismatch(a, b, F, rtol=2e-2, afrac=1e-4):
     """largest violation ratio of |a-b| <= rtol*max + afrac*F over the entries"""
     a = np.asarray(a, float); b = np.asarray(b, float)
@@ -241,16 +248,37 @@ def mismatch(a, b, F, rtol=2e-2, afrac=1e-4):
     return float(r.max()) if r.size else 0.
 
 
-def effectively_single(l, L):
-    """one liquid: a phase is empty, or both 'phases' have the same composition (the trivial solution an
-    optimiser returns for a miscible mixture; how much is put under each label is then arbitrary)"""
-    l = np.asarray(l, float); L = np.asarray(L, float)
-    if l.sum() <= 0 or L.sum() <= 0: return True
-    return bool(np.max(np.abs(l / l.sum() - L / L.sum())) <= 1e-5)
+F_TOL = 1e-6        # the resolution the Gibbs-energy minimisers are run at (shgo f_tol, differential evolution tol)
 
 
-def split_mismatch(l1, L1, l2, L2, F, upto_swap, **k):
-    if effectively_single(l1, L1) and effectively_single(l2, L2):
+def single_test(idx, T):
+    """returns es(l, L): is this result one liquid at the solver's own resolution?  Yes if a phase is empty, or if
+    dividing the feed into (l, L) lowers the Gibbs energy of mixing — the objective shgo and differential evolution
+    minimise, per mole of feed, evaluated through thermo.Gamma — by less than F_TOL compared with leaving it as one
+    liquid.  That covers the trivial solution (two 'phases' of one composition: how much goes under each label is
+    arbitrary) and a dust phase (1e-10 of the feed).  Measured: such results gain 1e-16..1e-9, genuine two-liquid
+    splits 3e-2..0.8."""
+    chems = [LTH.chemicals.tuple[i] for i in idx]
+    gam = LTH.Gamma(chems)
+    def G(m):
+        tot = m.sum()
+        if tot <= 0: return 0.
+        x = m / tot
+        with np.errstate(all='ignore'):
+            a = x * gam(x, T)
+            a = np.where((a <= 0) | ~np.isfinite(a), 1., a)
+            return float((m * np.log(a)).sum())
+    def es(l, L):
+        l = np.asarray(l, float)[idx]; L = np.asarray(L, float)[idx]
+        if l.sum() <= 0 or L.sum() <= 0: return True
+        f = l + L
+        gain = (G(l) + G(L) - G(f)) / f.sum()
+        return bool(gain > -F_TOL)
+    return es
+
+
+def split_mismatch(l1, L1, l2, L2, F, upto_swap, es, **k):
+    if es(l1, L1) and es(l2, L2):
         return mismatch(np.asarray(l1) + np.asarray(L1), np.asarray(l2) + np.asarray(L2), F, **k)
     m = max(mismatch(l1, l2, F, **k), mismatch(L1, L2, F, **k))
     if upto_swap:
@@ -304,7 +332,10 @@ def run_lle(case, model_in, outs, failures, tags):
         upd = kv.get('upd', '1') != '0'
         feed = total_flows(s)
         F_feed = feed.sum()
+        if 0 < F_feed < 1e-3: tags.append('feed:tiny(<1e-3 kmol/hr)')
         lle = s.lle
+        phi_before = lle._phi          # remembered phase fraction: the solver takes the remembered K as its
+        guess_is_remembered = lle._K is not None and phi_before is not None and 0 < phi_before < 1   # guess only then
         _rec_reset()
         raised = None
         try:
@@ -325,6 +356,23 @@ def run_lle(case, model_in, outs, failures, tags):
                             f'tolT={fbits(eff_tolT)} tolZ={fbits(eff_tolZ)} phi=- sol=-')
             outs.append('path=none' if upd else f'path=none K={fl(ret[1])} phi={fbits(ret[2])}')
             tags.append('path:none' + ('' if upd else ':update=False'))
+            continue
+        if raised is None and REC['solve'] is None and not REC['pf']:
+            # the code did nothing although the liquids hold >= 2 chemicals and a non-zero total (neither the solver nor
+            # the Rachford-Rice routine ran): whether a feed is split must not depend on its absolute size
+            model_in.append(f'lle-call uc={int(uc)} upd={int(upd)} chems={nl(idx)} T={fbits(T)} mol={fl(mol)} '
+                            f'MW={fl(lle.chemicals.MW[idx])} top={"-" if topi is None else topi} '
+                            f'tolT={fbits(eff_tolT)} tolZ={fbits(eff_tolZ)} phi=- sol=-')
+            outs.append('path=none'); tags.append('path:none:non-empty-feed')
+            kk = 100. / F_feed
+            big = new_lle_stream({i: feed[i] * kk for i in range(len(feed)) if feed[i]}, method, tolT, tolZ)
+            big.lle(T, top_chemical=top, use_cache=False)
+            bl, bL = rows(big)
+            if not single_test(list(idx), T)(bl, bL):
+                failures.append({'signature': f'scale:{MTAG[method]}', 'op_index': len(model_in) - 1,
+                                 'what': f'a feed of {F_feed:.6g} kmol/hr in total ({sig6(mol)} of {ids}) is not split at all, '
+                                         f'{kk:.6g} x the same feed gives l={sig6(bl[idx])} L={sig6(bL[idx])} (T={T}, method={method})'})
+            prev = None
             continue
         ncalls += 1
         path = 'solve' if REC['solve'] is not None else 'cache'
@@ -386,7 +434,8 @@ def run_lle(case, model_in, outs, failures, tags):
         outs.append(f'path={path} l={fl(l_after[idx])} L={fl(L_after[idx])} K={fl(lle._K)} phi={fbits(lle._phi)}')
         # --- oracle on the real objects
         upto_swap = topi is None
-        two = not effectively_single(l_after, L_after)
+        es = single_test(list(idx), T)
+        two = not es(l_after, L_after)
         tags.append('result:two-phases' if two else 'result:one-phase')
         if two and ncalls > 1: two_phase_after_history = True
         # what the history looked like (public inputs only)
@@ -438,7 +487,7 @@ def run_lle(case, model_in, outs, failures, tags):
                 for j in range(1, k): apply_lle_op(tw, ops[j])
                 apply_lle_op(tw, t, force_nocache=True)
                 tl, tL = rows(tw)
-                mm = split_mismatch(l_after, L_after, tl, tL, F_feed, upto_swap)
+                mm = split_mismatch(l_after, L_after, tl, tL, F_feed, upto_swap, es)
             except Exception as e:
                 failures.append({'signature': f'lle-raises:{type(e).__name__}:use_cache=False', 'op_index': op_index,
                                  'what': f'the same history with the last call made with use_cache=False raises '
@@ -446,10 +495,15 @@ def run_lle(case, model_in, outs, failures, tags):
                 tl, tL, mm = l_after, L_after, 0.
             _stat('twin', method, len(idx), path, rel, mm)
             if mm > thr:
-                failures.append({'signature': f'cache-vs-nocache:{rel}', 'op_index': op_index,
-                                 'what': f"with use_cache=True l={np.round(l_after[idx], 6).tolist()} L={np.round(L_after[idx], 6).tolist()}, "
-                                         f"the same history with use_cache=False gives l={np.round(tl[idx], 6).tolist()} "
-                                         f"L={np.round(tL[idx], 6).tolist()} (chemicals {ids}, T={T}, previous call "
+                sig = f'cache-vs-nocache:{rel}'
+                if method == 'pseudo equilibrium' and not guess_is_remembered:
+                    # the remembered result was a single liquid, so the no-cache solve starts from the default guess
+                    # instead of the remembered K; with K frozen (C15-3) the answer is whatever guess was taken
+                    sig = 'history-vs-fresh:pseudo-equilibrium'
+                failures.append({'signature': sig, 'op_index': op_index,
+                                 'what': f"with use_cache=True l={sig6(l_after[idx])} L={sig6(L_after[idx])}, "
+                                         f"the same history with use_cache=False gives l={sig6(tl[idx])} "
+                                         f"L={sig6(tL[idx])} (chemicals {ids}, T={T}, previous call "
                                          f'{"none" if prev is None else prev[0]} K, method={method}, history {rel})'})
         # 4. fresh stream
         if not custom_hit:
@@ -463,14 +517,14 @@ def run_lle(case, model_in, outs, failures, tags):
                 prev = (T, z.copy(), list(idx))
                 continue
             fl_, fL_ = rows(fr)
-            mm = split_mismatch(l_after, L_after, fl_, fL_, F_feed, upto_swap)
+            mm = split_mismatch(l_after, L_after, fl_, fL_, F_feed, upto_swap, es)
             _stat('fresh', method, len(idx), path, rel, mm)
             if mm > thr:
                 sig = 'history-vs-fresh:pseudo-equilibrium' if method == 'pseudo equilibrium' else \
                     f'history-vs-fresh:{MTAG[method]}:{rel}'
                 failures.append({'signature': sig, 'op_index': op_index,
-                                 'what': f"after the history l={np.round(l_after[idx], 6).tolist()} L={np.round(L_after[idx], 6).tolist()}, "
-                                         f"a fresh stream gives l={np.round(fl_[idx], 6).tolist()} L={np.round(fL_[idx], 6).tolist()} "
+                                 'what': f"after the history l={sig6(l_after[idx])} L={sig6(L_after[idx])}, "
+                                         f"a fresh stream gives l={sig6(fl_[idx])} L={sig6(fL_[idx])} "
                                          f'(chemicals {ids}, T={T}, previous call {"none" if prev is None else prev[0]} K, '
                                          f'method={method}, path={path})'})
             # 5. scaling (fresh against fresh)
@@ -486,13 +540,13 @@ def run_lle(case, model_in, outs, failures, tags):
                     prev = (T, z.copy(), list(idx))
                     continue
                 sl, sL = rows(sc)
-                mm = split_mismatch(fl_ * kscale, fL_ * kscale, sl, sL, F_feed * kscale, upto_swap)
+                mm = split_mismatch(fl_ * kscale, fL_ * kscale, sl, sL, F_feed * kscale, upto_swap, es)
                 tags.append('scale-checked')
                 _stat('scale', method, len(idx), path, rel, mm)
                 if mm > thr:
                     failures.append({'signature': f'scale:{MTAG[method]}', 'op_index': op_index,
-                                     'what': f'feed scaled by {kscale}: flows {np.round(sl[idx], 6).tolist()} / {np.round(sL[idx], 6).tolist()} '
-                                             f'are not {kscale} x {np.round(fl_[idx], 6).tolist()} / {np.round(fL_[idx], 6).tolist()} '
+                                     'what': f'feed scaled by {kscale}: flows {sig6(sl[idx])} / {sig6(sL[idx])} '
+                                             f'are not {kscale} x {sig6(fl_[idx])} / {sig6(fL_[idx])} '
                                              f'(chemicals {ids}, T={T}, method={method})'})
         prev = (T, z.copy(), list(idx))
     return two_phase_after_history
@@ -712,7 +766,11 @@ def gen_lle(rng, method_i):
     # water and the partner dominate so that two liquids are likely
     flows[0] = round(flows[0] + rng.choice([3, 6, 10]), 4)
     flows[LNAMES.index(partner)] = round(flows[LNAMES.index(partner)] + rng.choice([2, 4, 8]), 4)
-    ftok = lambda d: ','.join(f'{i}:{v!r}' for i, v in sorted(d.items()))
+    # absolute size of the feed: ordinary (tens of kmol/hr) or tiny (total 1e-6 .. 1e-4 kmol/hr); the cache test,
+    # the split and every oracle tolerance are relative to the feed total, so nothing may depend on it
+    tiny = rng.random() < 0.3
+    lvl = (rng.choice([1e-6, 1e-5, 1e-4]) * rng.uniform(0.5, 1.0) / sum(flows.values())) if tiny else 1.0
+    ftok = lambda d: ','.join(f'{i}:{v * lvl!r}' for i, v in sorted(d.items()))
     tolT = '-' if rng.random() < 0.9 else rng.choice(['0.5', '2.0'])
     ops = [f'lle new method={method_i} tolT={tolT} tolZ=- flows={ftok(flows)}']
     tops = ['-'] + names + [x for x in LNAMES if x not in names][:1]
@@ -732,7 +790,7 @@ def gen_lle(rng, method_i):
                     i = rng.choice(sorted(flows)); flows[i] = flows[i] * (1 + rng.choice([-1, 1]) * rng.choice([2e-6, 8e-6]))
                     ops.append(f'lle set flows={ftok(flows)}')
                 elif r < 0.6:
-                    kk = rng.choice([1e-3, 0.01, 0.5, 2, 10, 1e3])
+                    kk = rng.choice([0.5, 2]) if tiny else rng.choice([1e-3, 0.01, 0.5, 2, 10, 1e3])
                     flows = {i: v * kk for i, v in flows.items()}
                     ops.append(f'lle scale k={kk!r}')
             elif sc < 0.42:                                 # colder, same composition
@@ -770,7 +828,8 @@ def gen_lle(rng, method_i):
                 ops.append(f'lle set flows={ftok(flows)}')
             if rng.random() < 0.25: top = rng.choice(tops)
         uc = 1 if rng.random() < 0.88 else 0
-        k = rng.choice([1e-3, 1e-2, 0.1, 10, 100, 1e3]) if (last or rng.random() < 0.3) else 1
+        k = rng.choice([1e-3, 1e-2, 0.1, 10, 100, 1e3] + ([1e5, 1e6] if tiny else [1e-5, 1e-6])) \
+            if (last or rng.random() < 0.3) else 1
         upd = 0 if (not last and rng.random() < 0.12) else 1
         ops.append(f'lle call T={T!r} top={top} uc={uc} k={k!r}' + ('' if upd else ' upd=0'))
     return Case(ops, {'kind': 'lle'})
@@ -845,6 +904,12 @@ def corpus():
               'lle call T=300.0 top=- uc=1 k=1 upd=0'], {'kind': 'lle'}),
         Case(['lle new method=2 tolT=- tolZ=- flows=0:10.0,2:5.0', 'lle call T=320.0 top=Butanol uc=1 k=1 upd=0',
               'lle call T=320.0 top=Butanol uc=1 k=1'], {'kind': 'lle'}),
+        # a tiny stream (2e-5 kmol/hr): same temperature, composition changed eight-fold in relative terms but by less
+        # than 1e-5 kmol/hr in absolute terms — the reuse test must look at mole fractions, not at flows
+        Case(['lle new method=1 tolT=- tolZ=- flows=0:9e-06,1:9e-06,5:1e-06', 'lle call T=310.0 top=Octane uc=1 k=1',
+              'lle set flows=0:2e-06,1:1.5e-05,5:8e-06', 'lle call T=310.0 top=Octane uc=1 k=100000.0'], {'kind': 'lle'}),
+        Case(['lle new method=2 tolT=- tolZ=- flows=0:9e-06,1:9e-06,5:1e-06', 'lle call T=310.0 top=Octane uc=1 k=1',
+              'lle set flows=0:2e-06,1:1.5e-05,5:8e-06', 'lle call T=310.0 top=Octane uc=1 k=100000.0'], {'kind': 'lle'}),
         # a single-phase binary: the optimiser returns two identical liquids (K = 1 ± 1e-8); reusing that K made
         # compute_phase_fraction_2N divide by zero (fixes_proposed/C15-4.md)
         Case(['lle new method=2 tolT=- tolZ=- flows=0:6.596,2:28.4414', 'lle call T=310.24 top=- uc=1 k=1',
